@@ -5,7 +5,6 @@ use crate::gen;
 use crate::refimpl::{self, RG, RS};
 use crate::suite::*;
 use crate::{for_both, Ctx};
-use bls12_381_plus::ff::Field;
 use blsful::*;
 use serde_json::json;
 
